@@ -861,3 +861,11 @@ Example ex_last_restart :
   restarts_in ex_clk [OSplit; OStop] (fst (fst (step ex_clk ORestart (fst c1) (snd c1)))) 7 = false /\
   w_started (fst (final ex_clk (ops1 ++ ORestart :: [OSplit; OStop]) ex_watch 0)) = Some (ex_clk 6).
 Proof. vm_compute. repeat split. Qed.
+
+(* the literal "never exceeds the maximum" for every maximum is false: elapsed(maximum=-1) = 0 on a running watch *)
+Lemma elapsed_max_literal_refuted : ~ C13_elapsed_max_full_statement.
+Proof.
+  intro H.
+  specialize (H ex_clk (mkWatch SStarted (Some 100) None [] None) 1%nat (-1) _ _ eq_refl).
+  vm_compute in H. apply H. reflexivity.
+Qed.
